@@ -83,6 +83,24 @@ Theorem C03_parse_render_select_partial :
 Proof. exact parse_render_select. Qed.
 Print Assumptions C03_parse_render_select_partial.
 
+(* every reference statement of Spec/RefStmt.v: [WITH [RECURSIVE] ctes] followed by a query expression (SELECTs combined
+   by UNION | EXCEPT | INTERSECT [ALL], left-nested), INSERT (column list, VALUES rows | query, RETURNING), UPDATE (SET,
+   WHERE, RETURNING) or DELETE (WHERE, RETURNING); CTEs with column lists, [NOT] MATERIALIZED and query bodies.  One
+   equation: accepted, nothing beyond the statement consumed, the whole tree equal to the prescribed one (WITH on the
+   left-most SELECT of a set operation, JOIN attached to the last FROM item, ...).
+   Omitted (besides the SELECT clauses listed above): ORDER BY / LIMIT on operands of set operations (known finding
+   `setop-trailing-order-by`), CTE bodies other than queries, nested WITH, ON CONFLICT / ON DUPLICATE KEY, UPDATE ... FROM,
+   DELETE ... USING, MERGE, DDL, the MySQL dialect. *)
+Theorem C03_parse_render_stmt_partial :
+  forall md sf fuel (sr : srho) s stop d,
+    stmt_ok s = true -> (d_no_alias_after_column sf = false \/ stmt_bare_alias_free s = true) ->
+    stmt_follow stop ->
+    d + stmt_depth sr s <= md ->
+    List.length (render_stmt sr s ++ stop) <= fuel ->
+    parse_statement md sf (parse_expression md no_defects fuel) d (render_stmt sr s ++ stop) = Val (ast_of_stmt s, stop).
+Proof. exact parse_render_stmt. Qed.
+Print Assumptions C03_parse_render_stmt_partial.
+
 Theorem C03_select_refuted_bare_alias :
   exists s stop, select_ok s = true /\ query_follow stop /\
     parse_statement 100 tree_flags (parse_expression 100 no_defects 100) 0 (render_select (fun _ _ => no_parens) s ++ stop)
@@ -96,4 +114,14 @@ Example C03_select_nonvacuous :
      = Val (GSelectS (ast_of_select ex_select), [Tk TyEOF ""%string]).
 Proof.
   split; [reflexivity|]. split; [reflexivity|]. split; [eexists _, _; split; reflexivity|apply ex_select_parse].
+Qed.
+
+Example C03_stmt_nonvacuous :
+  stmt_ok ex_stmt_with = true /\ stmt_ok ex_stmt_insert = true /\ stmt_follow [Tk TyEOF ""%string]
+  /\ parse_statement_top tree_flags (render_stmt (fun _ _ => no_parens) ex_stmt_with ++ [Tk TyEOF ""%string])
+     = Val (ast_of_stmt ex_stmt_with, [Tk TyEOF ""%string])
+  /\ parse_statement_top tree_flags (render_stmt (fun _ _ => no_parens) ex_stmt_insert ++ [Tk TyEOF ""%string])
+     = Val (ast_of_stmt ex_stmt_insert, [Tk TyEOF ""%string]).
+Proof.
+  split; [reflexivity|]. split; [reflexivity|]. split; [apply stmt_follow_eof|]. split; [apply ex_stmt_with_parse|apply ex_stmt_insert_parse].
 Qed.
